@@ -37,7 +37,45 @@ impl<T: ?Sized + Send> IsSend<T> { const V: bool = true; }
 impl<T: ?Sized + Sync> IsSync<T> { const V: bool = true; }
 
 fn ok<T: Send + Sync>() {}
+
+// value-level probe for objects whose type cannot be named from outside the crate (paths, iterators, search results)
+macro_rules! val_probe {
+    ($v:expr) => {{
+        struct W<'a, T>(&'a T);
+        trait NoS { fn is_send(&self) -> bool { false } }
+        trait NoY { fn is_sync(&self) -> bool { false } }
+        impl<'a, T> NoS for W<'a, T> {}
+        impl<'a, T> NoY for W<'a, T> {}
+        impl<'a, T: Send> W<'a, T> { fn is_send(&self) -> bool { true } }
+        impl<'a, T: Sync> W<'a, T> { fn is_sync(&self) -> bool { true } }
+        let v = $v;
+        let w = W(&v);
+        (w.is_send() as u8, w.is_sync() as u8)
+    }};
+}
+fn mk<P>() -> M<P> { M(0, PhantomData) }
 '''
+
+VALUE_PROBES = r"""
+    {
+        // objects handed out by the API hold node handles: they may cross threads exactly when the nodes may
+        let a = gdsl::%(fl)s::Node::<u8, %(pay)s, u8>::new(1, mk());
+        let b = gdsl::%(fl)s::Node::<u8, %(pay)s, u8>::new(2, mk());
+        a.connect(&b, 7);
+        let r = val_probe!(a.bfs().target(&2).search_path().unwrap());
+        println!("V %(fl)s path %(pay)s {} {}", r.0, r.1);
+        let r = val_probe!(a.dfs().target(&2).search().unwrap());
+        println!("V %(fl)s found-node %(pay)s {} {}", r.0, r.1);
+        let r = val_probe!(%(iter)s);
+        println!("V %(fl)s edge-iterator %(pay)s {} {}", r.0, r.1);
+        let r = val_probe!(%(iter)s.next().unwrap());
+        println!("V %(fl)s edge %(pay)s {} {}", r.0, r.1);
+        let r = val_probe!(%(ordn)s);
+        println!("V %(fl)s node-vector %(pay)s {} {}", r.0, r.1);
+        let r = val_probe!(%(orde)s);
+        println!("V %(fl)s edge-vector %(pay)s {} {}", r.0, r.1);
+    }
+"""
 
 
 POSITIVE = r"""// GENERATED: `gdsl::%s::%s<K, N, E>` must be Send + Sync for ALL payload types that are Send + Sync
@@ -81,6 +119,13 @@ def gen_probe(dirpath):
                     for (e, _, _) in MARKS:
                         ty = "gdsl::%s::%s<%s, %s, %s>" % (fl, t, k, n, e)
                         src.append('    println!("%s %s %s %s %s {} {}", IsSend::<%s>::V as u8, IsSync::<%s>::V as u8);' % (fl, t, k, n, e, ty, ty))
+    for fl in FLAVOURS:
+        directed = "digraph" in fl and "un" not in fl.replace("sync_", "")[:2]
+        for pay in ("SS", "SO", "NN"):
+            src.append(VALUE_PROBES % dict(fl=fl, pay=pay,
+                                           iter="a.iter_out()" if fl.endswith("digraph") else "a.iter()",
+                                           ordn="a.preorder().search_nodes()" if fl.endswith("digraph") else "a.order().pre().search_nodes()",
+                                           orde="a.postorder().search_edges()" if fl.endswith("digraph") else "a.order().post().search_edges()"))
     src.append("}")
     with open(os.path.join(dirpath, "src", "main.rs"), "w") as f:
         f.write("\n".join(src) + "\n")
@@ -94,11 +139,28 @@ def run_probe():
     if rc != 0:
         return None, out
     rows = {}
+    VALUE_ROWS.clear()
     for line in out.splitlines():
         t = line.split()
         if len(t) == 7 and t[0] in FLAVOURS:
             rows[(t[0], t[1], t[2], t[3], t[4])] = (int(t[5]), int(t[6]))
+        elif len(t) == 6 and t[0] == "V":
+            VALUE_ROWS[(t[1], t[2], t[3])] = (int(t[4]), int(t[5]))
     return rows, out
+
+
+VALUE_ROWS = {}
+
+
+def value_row_failures():
+    """value-level rows: an object handed out by a sync flavour is Send / Sync exactly when its node value type is both
+    (payload SS), and never in the plain flavours; returns [(key, got, want)]"""
+    bad = []
+    for (fl, what, pay), got in sorted(VALUE_ROWS.items()):
+        want = (1, 1) if (fl.startswith("sync_") and pay == "SS") else (0, 0)
+        if got != want:
+            bad.append(((fl, what, pay), got, want))
+    return bad
 
 
 def run_positive():
